@@ -15,6 +15,7 @@ import EaselModel.Gencode.WriteTotal
 import EaselModel.Gencode.ReadCode
 import EaselModel.Gencode.ReadComplete
 import EaselModel.Alphabet.Iupac
+import EaselModel.Gencode.WholeLemmas
 /-! # C17 — property theorems (statements + glue only; lemmas live in Gencode/*.lean)
 
 `T.tables` = every row of `esl_transl_tables[]` dumped from the code under check on this run; `Ncbi.pinned` = the
@@ -355,6 +356,32 @@ example : (T.tables.head?.map fun t =>
     some (some [⟨1, 6, [10, 8]⟩], some [], some [⟨1, 6, [10, 8]⟩]) := by decide +kernel
 example : (decodeDigicodon A.dna 14, decodeDigicodon A.dna 303, decodeDigicodon A.dna 304, decodeDigicodon A.dna (-1)) =
     (some [65, 84, 71], some [0, 84, 84], none, none) := by decide +kernel
+
+/-! ## whole sequences: both strands, `esl-translate` full-length and windowed (`-W`) main loops, option combinations -/
+
+/-- THE REVERSE STRAND, WINDOWS DELIVERED IN REVERSE ORDER: `esl_sqio_ReadWindow` with a negative window size walks the TOP strand
+    from its 3' end towards its 5' end; the `i`-th window is the reverse complement of the `k_i` residues ending `done` residues
+    before the end plus (after the first window) the 2 residues to their right. For every sequence and every list of window sizes
+    (first ≥ 2, sum = L) these are exactly the windows of the reverse-complemented sequence read front to back — so
+    `window_split_invariant` / `orf_stream_eq_spec` with `isRev = true` apply to what the windowed reader delivers. -/
+theorem reverse_strand_windows (nt : Alphabet) (d : List Nat) (k : Nat) (ks : List Nat) (hk : 2 ≤ k)
+    (hs : (k :: ks).sum = d.length) : topSlices nt d 0 (k :: ks) = windows [] (revcomp nt d) (k :: ks) :=
+  topSlices_windows nt d k ks hk hs
+
+/-- `esl-translate -W` = `esl-translate`: for every sequence of at least one codon, every window size other than 1 (the program
+    uses 4092; 0 stands for "unbounded"), every genetic code and EVERY option combination `esl_gencode_WorkstateCreate` reads
+    (`--watson`, `--crick`, `-m`, `-M`, `-l`), the windowed main loop `do_by_windows` (top strand front to back, then the reverse
+    strand from the 3' end of the top strand) leaves the work state — emitted ORFs, their numbering, the three frames — exactly
+    where the full-length loop `do_by_sequences` leaves it -/
+theorem windowed_eq_full_length (nt aa : Alphabet) (g : Gencode) (o : Opts) (W : Nat) (hW : W ≠ 1) (w : Work) (d : List Nat)
+    (hL : 3 ≤ d.length) :
+    byWindows nt aa g (workstateCreate o) W w d = bySequence nt aa g (workstateCreate o) w d :=
+  byWindows_eq_bySequence nt aa g (workstateCreate o) W hW w d hL
+
+-- non-vacuity: GGATGAAATAAC (12 nt), windows 5+4+3 from the 3' end: the slices of the top strand, reverse complemented
+example : topSlices A.dna [2,2,0,3,2,0,0,0,3,0,0,1] 0 [5, 4, 3] =
+    [[2,3,3,0,3], [0,3,3,3,1,0], [1,0,3,1,1]] ∧
+    windows [] (revcomp A.dna [2,2,0,3,2,0,0,0,3,0,0,1]) [5, 4, 3] = [[2,3,3,0,3], [0,3,3,3,1,0], [1,0,3,1,1]] := by decide +kernel
 
 /-! ## non-vacuity -/
 -- ATGAAATAAATGCCCTAGG in the standard code, any-initiator, minlen 0, top strand, windows 4+5+10:
